@@ -23,6 +23,7 @@ from .values import (
     to_boolean,
     to_number,
     to_integer,
+    MAX_ARRAY_LENGTH,
     to_string,
     js_pow,
     _JS_WHITESPACE,
@@ -2527,8 +2528,10 @@ class VM:
                     or math.isinf(new_len)
                     or new_len < 0
                     or new_len != int(new_len)
-                    or new_len > 2**32 - 1
+                    or new_len > MAX_ARRAY_LENGTH
                 ):
+                    # growing allocates the elements: the same bound as for
+                    # new Array(length)
                     raise JSRangeError("Invalid array length")
                 obj.length = int(new_len)
                 return
